@@ -21,6 +21,9 @@ def validate_trace(ck, files, name):
             for line in open(f):
                 out.write(line); n += 1
     if n == 0:
+        if ck.divergences:       # every behaviour diverged before a read was logged: the verdict comes from the divergences
+            vlib.log("[trace] %s: no read events recorded (all behaviours diverged)" % name)
+            return
         raise vlib.Infra("no read events recorded")
     r = vlib.tlc("SnapshotReadsTrace", "SnapshotReadsTrace.cfg", workers=1, timeout=3000, env_extra={"VERIF_TRACE": trace},
                  tag="c07" + name, heap="8g")
